@@ -5,7 +5,7 @@ from ..summary import Item, items, is_ok, bv, name_eq
 from ..values import SymStr
 
 ID = 'C04'
-ENGINE_B = {'template': 't_vft', 'kinds': ['dispatch_', 'layout_'], 'max_quick': 6, 'max_thorough': 32}
+ENGINE_B = {'template': 't_vft', 'kinds': ['dispatch_', 'layout_'], 'max_quick': 12, 'max_thorough': 64}
 FN = ['g0', 'g1', 'g2', 'g3']
 EXPLANATION = ('Template t_vft (type T with a vftable block of m functions, each with an optional symbolic #[index], and an optional '
                'symbolic vftable #[size]) is executed symbolically through convert_grammar_functions_to_semantic_functions, '
